@@ -66,6 +66,10 @@ def build(cs):
                 base[1] = -0.0 if not cs.get('zero') else 0.5
             if n > 2:
                 base[2] = 1e-40 if dt == 'f' else 5e-320   # denormal
+            if cs.get('nf') and n > 5:
+                # non-finite values are values: unmasked ones come back as
+                # they are (cells 3 and 5 are never masked below)
+                base[3], base[4], base[5] = np.inf, -np.inf, np.nan
         else:
             base = (np.arange(n) + 3).astype(dt)
         base = base.reshape(shape)
@@ -175,6 +179,18 @@ def gen_cases(rnd, tier, fillcfgs):
     for c in cases:
         c['zero'] = bool(c['masked'] != 'no' and c['dt'] != 'c' and
                          rnd.random() < 0.34)
+    # non-finite values in unmasked cells of half of the float cases that
+    # have room for them (six or more cells)
+    extra = []
+    for c in cases:
+        if c['dt'] in 'fd' and c['rank'] in ('2d', '3d'):
+            if c['masked'] == 'some':
+                d = dict(c)
+                d['nf'] = True
+                extra.append(d)
+            else:
+                c['nf'] = rnd.random() < 0.5
+    cases += extra
     for i, c in enumerate(cases):
         c['tid'] = i + 1
     return cases
